@@ -658,6 +658,95 @@ def correspondence(ctx):
         'connect() returning False and encryption are outside the model',
     ]
     ctx._c13_results = all_results
+    poller_correspondence(ctx)
+
+
+POLLER_COMPONENT = 'Poller/Model.v <-> pysyncobj/poller.py'
+POLLER_HEADER = ('From Coq Require Import NArith List.\nFrom PSO Require Import Poller.Model.\nImport ListNotations.\n'
+                 'Open Scope N_scope.\n')
+
+
+def _poller_worker(seeds):
+    from harness import pollerh as H
+    P = H.load_impl()
+    out = []
+    for s in seeds:
+        case = H.gen_case(s)
+        try:
+            obs = H.run_impl(P, case)
+        except Exception:
+            import traceback
+            out.append({'seed': s, 'crash': traceback.format_exc()})
+            continue
+        out.append({'seed': s, 'kind': case['kind'], 'call': H.v_case(case, obs), 'impl': H.canon_impl(obs),
+                    'problems': H.problems_of(case, obs), 'rounds': sum(1 for e in case['events'] if e[0] == 'poll'),
+                    'dispatches': sum(len(d) for d, _ in obs['outs']),
+                    'nested_ops': sum(len(case['scripts'].get(d[0], [])) for ds, _ in obs['outs'] for d in ds)})
+    return out
+
+
+def poller_correspondence(ctx):
+    """the real SelectPoller / PollPoller against a fake select module, callbacks that subscribe / unsubscribe during a
+    round; observation = dispatches per event, exception flag, final tables"""
+    import multiprocessing as mp
+    from harness import pollerh as H
+    from vlib import cov
+    n = 800 if ctx.quick else 20000
+    base = (ctx.seed * 31337 + 5) % (2 ** 31)
+    seeds = list(range(0, 60)) + [base + i for i in range(n)]
+    nproc = 8
+    chunks = [seeds[i::nproc] for i in range(nproc)]
+    with mp.get_context('fork').Pool(nproc) as pool:
+        results = [r for part in cov.pmap(ctx, pool, _poller_worker, chunks) for r in part]
+    results.sort(key=lambda r: r['seed'])
+    st = ctx.corr(POLLER_COMPONENT)
+    good = [r for r in results if 'crash' not in r]
+    files, groups = [], []
+    per_file = 400
+    for i in range(0, len(good), per_file):
+        grp = good[i:i + per_file]
+        path = os.path.join(ctx.work, 'poller_cases_%d.v' % (i // per_file))
+        with open(path, 'w') as f:
+            f.write(POLLER_HEADER)
+            f.write('Eval vm_compute in [%s].\n' % ';\n '.join(r['call'] for r in grp))
+        files.append(path)
+        groups.append(grp)
+    res = coq.coqc_eval(files, ctx.work)
+    nprob = 0
+    for path, grp in zip(files, groups):
+        rc, out, dt = res[path]
+        if rc != 0:
+            st['divergences'] += 1
+            st.setdefault('first_divergences', []).append({'file': path, 'coqc_failed': out[-1500:]})
+            continue
+        vals = coq.parse_coq_value(out)
+        for r, v in zip(grp, vals):
+            st['cases'] += 1
+            st['steps'] += r['rounds']
+            if r['dispatches'] >= 2 and r['nested_ops'] >= 1:
+                st['nontrivial'] += 1
+            ctx.count(POLLER_COMPONENT, r['kind'] + '_cases')
+            ctx.count(POLLER_COMPONENT, 'dispatches_%s' % min(r['dispatches'] // 5 * 5, 20))
+            model = H.canon_model(r['kind'], v)
+            if model != r['impl']:
+                st['divergences'] += 1
+                if len(st.setdefault('first_divergences', [])) < 5:
+                    st['first_divergences'].append({'seed': r['seed'], 'kind': r['kind'], 'impl': repr(r['impl'])[:600],
+                                                    'model': repr(model)[:600]})
+    for r in results:
+        if 'crash' in r:
+            st['divergences'] += 1
+            st.setdefault('first_divergences', []).append({'seed': r['seed'], 'harness_crash': r['crash'][-1200:]})
+        elif r['problems']:
+            nprob += 1
+            if nprob <= 2:
+                ctx.violation('C13 monitor on the implementation: ' + r['problems'][0],
+                              {'kind': 'poller_case', 'case_seed': r['seed'], 'problems': r['problems']}, found_input=True)
+    ctx.monitor['poller_cases'] = len(results)
+    ctx.monitor['poller_monitor_records'] = nprob
+    ctx.trusted.append('poller.py: the kernel calls select.select / select.poll are replaced by a fake module (harness/pollerh.py: four '
+                       'readiness bits per descriptor; the fake poll object keeps registrations in insertion order and always reports '
+                       'POLLERR/POLLHUP); the iteration order of the set of ready descriptors in SelectPoller.poll is an oracle input')
 
 
 def corpus_seeds():
@@ -801,6 +890,15 @@ def search(ctx):
 
 def replay(ctx, data):
     T = F.load_impl()
+    if data.get('kind') == 'poller_case':
+        from harness import pollerh as H
+        case = H.gen_case(data['case_seed'])
+        obs = H.run_impl(H.load_impl(), case)
+        print('problems:', H.problems_of(case, obs))
+        if H.problems_of(case, obs):
+            print('VIOLATION property=C13 replay=(replayed)')
+            return 1
+        return 0
     if data.get('kind') == 'pipe_case':
         c = run_any(data['case_seed'], T)
         print('problems:', c['problems'])
